@@ -4,6 +4,8 @@ import ast
 from ..model import AnalysisError
 from ..lib import (FV, decode_new, decode_call, phi_members, is_sym, is_const, is_str, strip_stores, stores_of,
                    find_assign, find_assigns, simple_assigns, local_term, cond_equiv, cond_implies, path_term)
+from ..lib import (reached_iff, reached_implies, implies_reached, reached_iff_any, path_term, cond_equiv, cond_implies,  # noqa: F401
+                   else_stmts, branch_stmts, context_literals)
 from ..cfg import always_raises, walk_stmts
 from ..terms import r_sub, r_add
 from . import common as cm
@@ -125,25 +127,31 @@ def d2_state(chk, repo):
     chk.ob(ROT + ".rotate::composes-on-the-left", ok, "C18.D2",
            "self._rotation must become rotation * self._rotation (later rotations applied after earlier ones)", r.f,
            st[0][0] if st else None)
-    # method table
+    # method table (decided over the finite set of method names the function mentions)
+    from ..lib import values_reaching, _OTHER
+    meth = r.ev._sym("param:method")
+    five = {"from_quat", "from_matrix", "from_rotvec", "from_mrp", "from_euler"}
     okt = False
-    for s in r.body:
-        if isinstance(s, ast.If):
-            ct = r.ev.term(s.test, at=s)
-            want = r.spec("method in ['from_quat', 'from_matrix', 'from_rotvec', 'from_mrp', 'from_euler']")
-            if r.eq(ct, want):
-                tt = [r.term(x.value, at=x) for x in s.body if isinstance(x, ast.Assign)]
-                okt = any(r.eq(t_, r.spec("getattr(Rotation, method)(*args, **kwargs)")) for t_ in tt)
+    for s_, nm_, t_ in simple_assigns(r):
+        if r.eq(t_, r.spec("getattr(Rotation, method)(*args, **kwargs)")):
+            okt = values_reaching(r, s_, meth) == five
     chk.ob(ROT + ".rotate::method-dispatch", okt, "C18.D2",
-           "quaternion / matrix / rotation vector / MRP / Euler inputs must be handed to the scipy constructor of that name", r.f)
+           "quaternion / matrix / rotation vector / MRP / Euler inputs (exactly these) must be handed to the scipy constructor of "
+           "that name", r.f)
+    unknown = set()
+    for x_, n_ in r.raises():
+        if n_ == "ValueError":
+            unknown |= (values_reaching(r, x_, meth) or set())
+    chk.ob(ROT + ".rotate::unknown-methods-refused-exactly", _OTHER in unknown and not (unknown & (five | {"align_vector"})), "C18.D2",
+           f"ValueError is raised for the methods {sorted(unknown)}; expected: every name outside the supported set, and only those",
+           r.f)
     al = find_assign(r, lambda t_, s_: (r.ctx.head_of(t_) or ("",))[0] == "sub" and
                      (decode_call(r.ctx, r.ctx.args_of(t_)[0]) or ("",))[0].endswith("align_vectors"))
     oka = False
     if al is not None:
         env_ = {"i": r.spec("kwargs['initial']"), "f": r.spec("kwargs['final']")}
         oka = r.eq(al[2], r.spec("Rotation.align_vectors([f, np.cross(i, f)], [i, np.cross(i, f)])[0]", env=env_)) and \
-            cond_equiv(r, path_term(r, al[0]), r.spec("method not in ['from_quat', 'from_matrix', 'from_rotvec', 'from_mrp', 'from_euler'] "
-                                                       "and method == 'align_vector'"))
+            values_reaching(r, al[0], meth) == {"align_vector"}
     chk.ob(ROT + ".rotate::align-vector", oka, "C18.D2",
            "method 'align_vector' must build the rotation (first element of scipy's result) that takes `initial` to `final` and "
            "keeps their common normal fixed", r.f, al[0] if al else None)
